@@ -12,7 +12,6 @@ import (
 	"net/http"
 	"net/url"
 	"sort"
-	"strconv"
 	"strings"
 
 	"google.golang.org/genproto/googleapis/api/annotations"
@@ -434,11 +433,25 @@ func (p *path) addAdditionalBindings(
 	return nil
 }
 
+// quote returns raw as a JSON string, unless it already is one.
 func quote(raw []byte) []byte {
-	if n := len(raw); n > 0 && (raw[0] != '"' || raw[n-1] != '"') {
-		raw = strconv.AppendQuote(raw[:0], string(raw))
+	if n := len(raw); n >= 2 && raw[0] == '"' && raw[n-1] == '"' {
+		return raw
 	}
-	return raw
+	// JSON escaping, not Go escaping: strconv.Quote emits \x01, \a, \U0001....
+	b := make([]byte, 0, len(raw)+2)
+	b = append(b, '"')
+	for _, c := range raw {
+		switch {
+		case c == '"' || c == '\\':
+			b = append(b, '\\', c)
+		case c < 0x20:
+			b = append(b, fmt.Sprintf("\\u%04x", c)...)
+		default:
+			b = append(b, c)
+		}
+	}
+	return append(b, '"')
 }
 
 type param struct {
